@@ -591,6 +591,7 @@ impl Sim {
             Op::ExtraPut(t, k, v) => self.do_extra(i, *t, k, Some(v)),
             Op::ExtraDel(t, k) => self.do_extra(i, *t, k, None),
             Op::TakeRef(id) => self.take_ref(i, id),
+            Op::Inflate(end) => self.do_inflate(i, *end),
             Op::Get(_) | Op::Has(_) | Op::Stats => None,
             Op::RemoveBackup(which) => {
                 let e = self.dir.join("event.map.bak");
@@ -1287,6 +1288,43 @@ impl Sim {
         None
     }
 
+    /// `inflate`: see spec.rs. Nothing observable may change; the next offsets lie beyond `end`.
+    fn do_inflate(&mut self, i: usize, end: u64) -> Option<Finding> {
+        use std::os::unix::fs::FileExt;
+        self.close_store();
+        let path = self.dir.join("event.map");
+        let done = (|| -> std::io::Result<bool> {
+            let f = fs::OpenOptions::new().read(true).write(true).open(&path)?;
+            let mut b = [0u8; 8];
+            f.read_exact_at(&mut b, 0)?;
+            let marker = u64::from_le_bytes(b);
+            let end = (end + 7) / 8 * 8;
+            if end <= marker {
+                return Ok(false);
+            }
+            let len = f.metadata()?.len();
+            // whole chunks, as the store itself grows the file, and little room: the next stores
+            // have to grow it
+            let new_len = (end + 2047) / 2048 * 2048;
+            if new_len > len {
+                f.set_len(new_len)?;
+            }
+            f.write_all_at(&end.to_le_bytes(), 0)?;
+            Ok(true)
+        })();
+        match done {
+            Ok(true) => self.stats.inc("fault/map_inflated"),
+            Ok(false) => {}
+            Err(e) => return Some(self.finding(i, "inflate-failed", &[], format!("harness: inflate failed: {e}"))),
+        }
+        if let Err(f) = self.open_store(i) {
+            return Some(f);
+        }
+        self.log.push(format!("#{i} inflate to {end}"));
+        let ctx = OpCtx { kind: CtxKind::Restart, event: None, desc: "reopening the lengthened map".into(), also: &["C04"] };
+        self.check_against_model(i, &ctx)
+    }
+
     /// the limit an `fsize` modifier stands for, from the files as they are now
     fn fsize_limit(&self, mode: u8) -> u64 {
         let map_len = file_len(&self.dir.join("event.map"));
@@ -1535,7 +1573,32 @@ impl Sim {
         }
         self.sig_mix(&format!("query:{plan}:{}:{}", expect.matching.len().min(9), q.limit.map(|l| l.min(9)).unwrap_or(99)));
         if let Some(msg) = expect.check(q, &out) {
-            let f = self.finding(i, "query-result", &["C05"], format!("{}: {msg}; got {label}", q.brief()));
+            // besides C05: a filter of one of the shapes an event's own fields give (its id, its
+            // author, author+kind, one tag value alone or with author or kind, a time window),
+            // unlimited and unscreened, that misses a retrievable event or returns one that is
+            // not, contradicts "every access path agrees" (C17); a removed or vanished event in an
+            // answer contradicts C18
+            let mut props: Vec<&'static str> = vec!["C05"];
+            if let QueryOutcome::Ok(ids, _) = &out {
+                let want: BTreeSet<B32> = expect.matching.iter().map(|(_, id)| *id).collect();
+                let got: BTreeSet<B32> = ids.iter().copied().collect();
+                let one_tag = q.tags.len() == 1 && q.tags[0].1.len() == 1;
+                let dims = (!q.ids.is_empty()) as u8 + (!q.authors.is_empty()) as u8 + (!q.kinds.is_empty()) as u8 + (!q.tags.is_empty()) as u8;
+                let shape = q.limit.is_none()
+                    && q.mismatch_pct == 0
+                    && q.redact_pct == 0
+                    && (q.tags.is_empty() || one_tag)
+                    && q.authors.len() <= 1
+                    && q.kinds.len() <= 1
+                    && (dims <= 1 || (dims == 2 && q.ids.is_empty() && !(q.tags.is_empty() && q.authors.is_empty())));
+                if shape && want != got {
+                    props.push("C17");
+                }
+                if got.difference(&want).any(|id| self.model.ever_removed.contains(id)) {
+                    props.push("C18");
+                }
+            }
+            let f = self.finding(i, "query-result", &props, format!("{}: {msg}; got {label}", q.brief()));
             // (a wrong query answer does not end a run that is about another property)
             return self.settle(f, vec![]);
         }
